@@ -167,9 +167,9 @@ def substE (m : List (String × Expr)) : Expr → Expr
   | .unsupported => .unsupported
 
 /-- `MappingPulseTemplate.__init__` on complete mappings ("avoid nested mappings"): an unnamed mapping template
-without parameter constraints (PF-30 repaired) as the mapped template is merged with the new one — its parameter
+without parameter constraints (PF-C05c repaired) as the mapped template is merged with the new one — its parameter
 expressions are rewritten by the new parameter mapping, its measurement and channel targets are looked up in the
-new mappings; a channel the inner template drops stays dropped (PF-29 repaired).  `none` = the constructor
+new mappings; a channel the inner template drops stays dropped (PF-C05b repaired).  `none` = the constructor
 raises (a target that the new mapping does not know). -/
 def mkMapping (id : Option String) (pt : PT) (pm : List (String × Expr)) (mm : List (MName × MName))
     (cm : List (Chan × Option Chan)) (cons : List Expr) : Option PT :=
